@@ -984,6 +984,16 @@ Proof. destruct st; reflexivity. Qed.
 Lemma arena_eta a : mkArena (a_frames a) (a_refs a) (a_mem a) = a.
 Proof. destruct a; reflexivity. Qed.
 
+Lemma inv_head_disjoint st nb blocks scopes freed :
+  inv c st (mkG (nb :: blocks) scopes freed) -> Forall (disjoint nb) blocks.
+Proof.
+  intros [G _ _]. simpl in G.
+  destruct G as [Glen Grefs Gids Gfr Gne Gmarks Gsort Gblks Glvl Gst Gbel].
+  inversion Gst as [|? ? Hhd _]; subst. inversion Gblks as [|? ? Hnb Hrest]; subst.
+  rewrite Forall_forall in Hhd, Hrest. apply Forall_forall. intros x Hx.
+  apply (stacked_disjoint _ _ _ Gfr Hnb (Hrest _ Hx) (Hhd _ Hx)).
+Qed.
+
 (* arena_realloc *)
 Lemma inv_realloc st g k s p0 old new q a' :
   inv c st g -> api_okb g (Realloc k p0 old new) = true -> nth_error (st_scs st) k = Some s ->
@@ -991,7 +1001,9 @@ Lemma inv_realloc st g k s p0 old new q a' :
   inv c (mkState a' (st_scs st) (st_ncl st)) (gstep c g (Realloc k p0 old new) (EPtr q)) /\
   (forall b, In b (g_blocks g) -> agree (a_mem (st_a st)) (a_mem a') b) /\
   (forall p q', p0 = Some p -> q = Some q' -> forall i, i < N.min old new ->
-       a_mem a' (fst q') (snd q' + i) = a_mem (st_a st) (fst p) (snd p + i)).
+       a_mem a' (fst q') (snd q' + i) = a_mem (st_a st) (fst p) (snd p + i)) /\
+  (forall p q', p0 = Some p -> q = Some q' -> q' <> p ->
+       Forall (disjoint (mkB q' new (lvl_of g k) false)) (g_blocks g)).
 Proof.
   intros I Hapi Hk. pose proof I as [G _ _].
   (* the copying path, shared by all the cases that end in arena_malloc *)
@@ -1029,16 +1041,18 @@ Proof.
                          (g_scopes g) (g_freed g)) /\
               (forall b0, In b0 (g_blocks g) -> agree (a_mem (st_a st)) (mem_copy (a_mem a1) q1 p old) b0) /\
               (forall i, i < N.min old new ->
-                 mem_copy (a_mem a1) q1 p old (fst q1) (snd q1 + i) = a_mem (st_a st) (fst p) (snd p + i))).
+                 mem_copy (a_mem a1) q1 p old (fst q1) (snd q1 + i) = a_mem (st_a st) (fst p) (snd p + i)) /\
+              Forall (disjoint (mkB q1 new (lvl_of g k) false)) (g_blocks g)).
     { intros q1 a1 Hm Hlt.
       destruct (Hslow _ q1 a1 Hfreed Irem Hm (mem_copy (a_mem a1) q1 p old)) as (_ & I2 & _).
       { intros f o Ho. apply mem_copy_out. assumption. }
       assert (Ig : inv c st (mkG (g_blocks g) (g_scopes g) (g_freed g))) by (destruct g; exact I).
-      destruct (Hslow _ q1 a1 Hfreed Ig Hm (mem_copy (a_mem a1) q1 p old)) as (_ & _ & A2).
+      destruct (Hslow _ q1 a1 Hfreed Ig Hm (mem_copy (a_mem a1) q1 p old)) as (_ & I3 & A2).
       { intros f o Ho. apply mem_copy_out. assumption. }
+      simpl in I3. pose proof (inv_head_disjoint _ _ _ _ _ I3) as D3.
       destruct (Hslow _ q1 a1 Hfreed Ig Hm (a_mem a1)) as (_ & _ & A1).
       { intros; reflexivity. }
-      split; [exact I2|]. split; [exact A2|].
+      split; [exact I2|]. split; [exact A2|]. split; [|exact D3].
       intros i Hi. rewrite N.min_l in Hi by lia. unfold mem_copy, inrange. rewrite Nat.eqb_refl.
       assert (E1 : (snd q1 <=? snd q1 + i) = true) by (apply N.leb_le; lia).
       assert (E2 : (snd q1 + i <? snd q1 + old) = true) by (apply N.ltb_lt; lia).
@@ -1051,10 +1065,11 @@ Proof.
       assert (Hlvl : (b_lvl b <= lvl_of g k)%nat).
       { apply orb_true_iff in Hfind. destruct Hfind as [H|H]; [apply Nat.leb_le in H; assumption|].
         apply N.ltb_lt in H. lia. }
-      rewrite state_eta. split; [|split].
+      rewrite state_eta. split; [|split; [|split]].
       * simpl. apply inv_shrink with (b := b); try assumption. unfold lvl_of in *. lia.
       * intros b0 _ i _. reflexivity.
       * intros p1 q' E1 E2 i _. inversion E1; inversion E2; subst. reflexivity.
+      * intros p1 q' E1 E2 Hne. inversion E1; inversion E2; subst. congruence.
     + (* growing *)
       destruct (validate (st_a st) s) eqn:Ev; simpl; [|discriminate].
       assert (Hk0 : k = O).
@@ -1066,10 +1081,14 @@ Proof.
                 inv c (mkState a' (st_scs st) (st_ncl st)) (gstep c g (Realloc k (Some p) old new) (EPtr q)) /\
                 (forall b0, In b0 (g_blocks g) -> agree (a_mem (st_a st)) (a_mem a') b0) /\
                 (forall p1 q', Some p = Some p1 -> q = Some q' -> forall i, i < N.min old new ->
-                   a_mem a' (fst q') (snd q' + i) = a_mem (st_a st) (fst p1) (snd p1 + i))).
+                   a_mem a' (fst q') (snd q' + i) = a_mem (st_a st) (fst p1) (snd p1 + i)) /\
+                (forall p1 q', Some p = Some p1 -> q = Some q' -> q' <> p1 ->
+                   Forall (disjoint (mkB q' new (lvl_of g k) false)) (g_blocks g))).
       { intros q1 a1 Hm H. inversion H; subst q a'; clear H.
-        destruct (Hslow2 _ _ Hm Hgt) as (J1 & J2 & J3). split; [exact J1|]. split; [exact J2|].
-        intros p1 q' E1 E2 i Hi. inversion E1; inversion E2; subst. simpl. apply J3. assumption. }
+        destruct (Hslow2 _ _ Hm Hgt) as (J1 & J2 & J3 & J4). split; [exact J1|]. split; [exact J2|].
+        split.
+        - intros p1 q' E1 E2 i Hi. inversion E1; inversion E2; subst. simpl. apply J3. assumption.
+        - intros p1 q' E1 E2 _. inversion E2; subst. exact J4. }
       destruct (Nat.eqb (fst p) (length rest) && (align_off c (snd p + old) =? f_len fr)) eqn:Elast.
       * apply andb_true_iff in Elast. destruct Elast as [L1 L2].
         apply Nat.eqb_eq in L1. apply N.eqb_eq in L2.
@@ -1077,10 +1096,11 @@ Proof.
         -- intros H; inversion H; subst q a'; clear H.
            destruct (inv_grow _ _ _ _ _ _ _ _ _ _ I Ef Hgt Efr L1 L2 Epush Hd) as [J1 J2].
            subst k. unfold lvl_of. simpl. rewrite Nat.sub_0_r.
-           split; [exact J1|]. split; [exact J2|].
-           intros p1 q' E1 E2 i Hi. injection E1 as <-. injection E2 as <-.
-           rewrite N.min_l in Hi by lia.
-           specialize (J2 b Hb i). unfold b_fi, b_off in J2. rewrite Hl, Hs in J2. apply J2. lia.
+           split; [exact J1|]. split; [exact J2|]. split.
+           ++ intros p1 q' E1 E2 i Hi. injection E1 as <-. injection E2 as <-.
+              rewrite N.min_l in Hi by lia.
+              specialize (J2 b Hb i). unfold b_fi, b_off in J2. rewrite Hl, Hs in J2. apply J2. lia.
+           ++ intros p1 q' E1 E2 Hne. injection E1 as <-. injection E2 as <-. congruence.
         -- destruct (malloc c (st_a st) s new) as [[q1 a1]| | |] eqn:Em; try discriminate.
            apply (Hfin q1 a1 eq_refl).
       * destruct (malloc c (st_a st) s new) as [[q1 a1]| | |] eqn:Em; try discriminate.
@@ -1091,7 +1111,8 @@ Proof.
     intros H; inversion H; subst q a'; clear H.
     assert (Ig : inv c st (mkG (g_blocks g) (g_scopes g) (g_freed g))) by (destruct g; exact I).
     destruct (Hslow _ q1 a1 Hfreed Ig eq_refl (a_mem a1)) as (_ & J1 & J2); [intros; reflexivity|].
-    rewrite arena_eta in J1. split; [exact J1|]. split; [exact J2|]. intros p q' E; discriminate.
+    rewrite arena_eta in J1. split; [exact J1|]. split; [exact J2|].
+    split; intros p q' E; discriminate.
 Qed.
 
 
@@ -1190,7 +1211,7 @@ Proof.
     unfold with_scope. destruct (nth_error (st_scs st) k) as [s|] eqn:Hk; [|discriminate].
     destruct (realloc c (st_a st) s p0 old new) as [[q a']| | |] eqn:Er; try discriminate.
     intros H; inversion H; subst; clear H.
-    destruct (inv_realloc _ _ _ _ _ _ _ _ _ I Hapi Hk Er) as (J1 & J2 & _).
+    destruct (inv_realloc _ _ _ _ _ _ _ _ _ I Hapi Hk Er) as (J1 & J2 & _ & _).
     split; [exact J1|]. intros b Hb _. simpl. apply J2. assumption.
   - (* Strndup *)
     unfold with_scope. destruct (nth_error (st_scs st) k) as [s|] eqn:Hk; [|discriminate].
